@@ -17,6 +17,7 @@ from ..pyfront import dotted, call_name, kwarg, params, src, walk_no_nested, con
 from .. import effects
 
 EXPLANATION = (
+    'make_molecules_whole / image_molecules are evaluated on a model trajectory (copy unless inplace; default bond list sorted by first atom); Topology.find_molecules is evaluated on four model bond graphs and must return the connected components.  Further: '
     "The re-imaging kernels in image_molecules.pxi are read through the Cython desugarer: every product that involves a cell "
     "vector component and ends up in a position update is required to be  cell[r, k] * I(x[r] / cell[r, r])  with r constant, "
     "k the component index and I an integer-valued rounding; rows are processed c, b, a; position stores are `old -/+ accumulator`; "
